@@ -4,5 +4,6 @@ open Cherab.Props.C18Table
 #print axioms tables_understood
 #print axioms tables_well_formed
 #print axioms constructors_complete
+#print axioms constructors_accept_valid_parameters
 #print axioms geometry_changes_notify
 #print axioms speed_of_light_exact
